@@ -594,6 +594,38 @@ def desugar_option(body, method, k, cnt):
     return body[:rs] + new + body[q + 1:]
 
 
+def desugar_for(body, k, cnt):
+    """Rule N9: `for PAT in EXPR { B }`  =>  `let mut iter_k = (EXPR).into_iter(); loop { let Some(PAT) = iter_k.next() else { break; }; B }`
+    (the definitional desugaring of `for`, minus the implicit drop scope)."""
+    mask = code_mask(body)
+    hits = [i for i in range(len(body)) if mask[i] and _word_at(body, i, 'for')]
+    if len(hits) < k:
+        raise ExtractError('lost anchor: for-loop #%d' % k)
+    i = hits[k - 1]
+    m = re.compile(r'for\s+(.*?)\s+in\s+', re.S).match(body, i)
+    if not m:
+        raise ExtractError('desugar for: cannot parse header')
+    pat = m.group(1)
+    # expression runs up to the '{' at bracket depth 0
+    depth = 0
+    ob = None
+    for j, kind, t in scan(body, m.end()):
+        if kind != 'code':
+            continue
+        if t in '([':
+            depth += 1
+        elif t in ')]':
+            depth -= 1
+        elif t == '{' and depth == 0:
+            ob = j
+            break
+    expr = body[m.end():ob].strip()
+    var = 'iter_%d' % k
+    new = 'let mut %s = (%s).into_iter(); loop {\n let Some(%s) = %s.next() else { break; };' % (var, expr, pat, var)
+    cnt['N9'] = cnt.get('N9', 0) + 1
+    return body[:i] + new + body[ob + 1:]
+
+
 def parse_quoted_pair(arg):
     m = re.match(r'\s*"((?:[^"\\]|\\.)*)"\s*=>\s*"((?:[^"\\]|\\.)*)"\s*(x(\d+))?\s*$', arg, re.S)
     if not m:
@@ -649,6 +681,9 @@ def process_fn_block(head, lines, meta):
                     raise ExtractError('bad anchor: ' + arg)
                 cur = []
                 inserts.append((kw, m.group(1).encode().decode('unicode_escape'), int(m.group(3) or 1), cur))
+            elif kw == 'atend':
+                cur = []
+                inserts.append(('atend', None, 1, cur))
             elif kw == 'sub':
                 subs.append(('sub',) + parse_quoted_pair(arg))
             elif kw == 'closure':
@@ -704,6 +739,8 @@ def process_fn_block(head, lines, meta):
             body = ws_sub(body, sb[1], sb[2], sb[3], 'body(%s)' % name, cnt, 'N8')
         elif sb[0] == 'closure':
             body = annotate_closure(body, sb[1], sb[2], ' '.join(l.strip() for l in sb[3]), cnt)
+        elif sb[0] == 'desugar' and sb[1] == 'for':
+            body = desugar_for(body, sb[2], cnt)
         elif sb[0] == 'desugar':
             body = desugar_option(body, sb[1], sb[2], cnt)
     # loop invariants (insert from last to first so indices stay valid)
@@ -719,6 +756,10 @@ def process_fn_block(head, lines, meta):
     if inserts:
         blines = body.split('\n')
         for mode, anchor, k, ins in inserts:
+            if mode == 'atend':
+                last = max(i for i, l in enumerate(blines) if l.strip() == '}')
+                blines[last:last] = ['/*@inj*/' + l for l in ins]
+                continue
             hits = [i for i, l in enumerate(blines) if not l.startswith('/*@inj*/') and (l.strip() == anchor or l.strip().startswith(anchor))]
             if len(hits) < k:
                 raise ExtractError('lost anchor in %s: line %r (#%d) not found' % (name, anchor, k))
